@@ -922,6 +922,7 @@ loop:
 }
 
 func (t *Template) parseControl(allowElseIf bool, context string) (pos Pos, line int, set *SetNode, expression Expression, list, elseList *ListNode) {
+	defer t.nest()() // an {{else if}} chain recurses here once per branch
 	line = t.lex.lineNumber()
 
 	expression = t.assignmentOrExpression(context)
